@@ -55,7 +55,7 @@ def run(ctx):
             if api.startswith("QR") and st not in ("sing-zero-col", "sing-zero-matrix"):
                 continue
             req.append((api, st, 30))
-    ctx.run_events(b["c07_dyn"], ctx.n(90000, 1350000), require=req, env=ENV)
+    ctx.run_events(b["c07_dyn"], ctx.n(60000, 1350000), require=req, env=ENV)
     req = []
     for api in TINY_APIS:
         for st in NONSING + SING:
